@@ -16,11 +16,12 @@ def write_if_changed(path, text):
 
 
 def run(only=None):
-    from translate import py_int2coq, py_consts2coq, py_effects2coq
+    from translate import py_int2coq, py_consts2coq, py_effects2coq, py_ledger2coq
     jobs = {
         'GenUtils.v': lambda: py_int2coq.generate(os.path.join(REPO, 'utils.py'), ['next_fast_len', 'prev_fast_len']),
         'GenConsts.v': lambda: py_consts2coq.generate(REPO),
         'GenEffects.v': lambda: py_effects2coq.generate('/repo')[0],
+        'GenLedger.v': lambda: py_ledger2coq.generate('/repo'),
     }
     res = {}
     os.makedirs(GEN, exist_ok=True)
